@@ -437,6 +437,7 @@ fn run_at(api: &Api, b: &[u8], et: u16) -> Value {
 /// placements (flush against a guard page behind / in front of the input, different poison);
 /// `pl` says whether both placements produced the same projection.
 pub fn run_api(g: &mut Guards, api: &Api, b: &[u8], et: u16, skip: usize) -> Value {
+    crate::util::mark_api(api.name, api.m, api.fam);
     let r1 = {
         let s = g.a.place_end(b, 0xA5);
         run_at(api, s, et)
